@@ -88,6 +88,7 @@
 // uncomment me to run benchmarks
 //#![cfg_attr(test, feature(test))]
 #![cfg_attr(test, deny(warnings))]
+#![cfg_attr(feature = "verif", allow(missing_docs, unreachable_pub))]
 
 macro_rules! proto_err {
     (conn: $($msg:tt)+) => {
@@ -134,6 +135,10 @@ mod share;
 #[cfg(fuzzing)]
 #[cfg_attr(feature = "unstable", allow(missing_docs))]
 pub mod fuzz_bridge;
+
+#[cfg(feature = "verif")]
+#[doc(hidden)]
+pub mod verif;
 
 pub use crate::error::{Error, Reason};
 pub use crate::share::{FlowControl, Ping, PingPong, Pong, RecvStream, SendStream, StreamId};
